@@ -7,11 +7,11 @@ package main
 // exactly the denied items.
 
 import (
+	"encoding/json"
 	"encoding/xml"
 	"fmt"
 	"hash/fnv"
 	"os"
-	"sort"
 	"strings"
 
 	"github.com/jdillenkofer/pithos/internal/http/server/authorization"
@@ -343,10 +343,12 @@ end
 func keyedPolicy(seed uint64) policy {
 	return func(kind, op string, bucket, key *string, item string) bool {
 		h := fnv.New64a()
-		fmt.Fprintf(h, "%d|%s|%s|%s|%s|%s", seed, kind, op, sp(bucket), sp(key), item)
 		if kind == "request" {
+			fmt.Fprintf(h, "%d|request|%s|%s|%s", seed, op, sp(bucket), sp(key))
 			return h.Sum64()%100 < 65
 		}
+		// per-item hooks are keyed on the item alone
+		fmt.Fprintf(h, "%d|%s|%s", seed, kind, item)
 		return h.Sum64()%100 < 55
 	}
 }
@@ -380,9 +382,10 @@ var c31Queries = []string{"uploads", "uploadId", "partNumber", "tagging", "versi
 
 // c31Base is one (method, shape, query-subset) combination.
 type c31Base struct {
-	Method  string
-	Shape   string
-	Queries []string
+	Method   string // "CANON" = entry canonIdx of the curated list
+	Shape    string
+	Queries  []string
+	canonIdx int
 }
 
 func (b c31Base) pattern() string {
@@ -396,11 +399,11 @@ func (b c31Base) pattern() string {
 func c31AllBases() (single, pairs []c31Base) {
 	for _, m := range c31Methods {
 		for _, s := range c31Shapes {
-			single = append(single, c31Base{m, s, nil})
+			single = append(single, c31Base{Method: m, Shape: s})
 			for i, q := range c31Queries {
-				single = append(single, c31Base{m, s, []string{q}})
+				single = append(single, c31Base{Method: m, Shape: s, Queries: []string{q}})
 				for _, q2 := range c31Queries[i+1:] {
-					pairs = append(pairs, c31Base{m, s, []string{q, q2}})
+					pairs = append(pairs, c31Base{Method: m, Shape: s, Queries: []string{q, q2}})
 				}
 			}
 		}
@@ -595,6 +598,100 @@ func c31Build(rg *vkit.Rand, b c31Base, st *c31State) c31Req {
 	return rq
 }
 
+
+// c31Canon is a curated list of well-formed S3 operations against the seeded
+// state, so that every storage method is actually reached under every program
+// (the combinatorial generator mostly produces odd requests).
+func c31Canon(st *c31State) []c31Req {
+	v0, v1 := "null", "null"
+	if len(st.BetaVersions) >= 2 {
+		v0, v1 = st.BetaVersions[0], st.BetaVersions[1]
+	}
+	mk := func(method, shape, host, path, query string, hdr map[string]string, body string, delKeys []string) c31Req {
+		if hdr == nil {
+			hdr = map[string]string{}
+		}
+		pat := method + " " + shape
+		if qn := queryNames(query); qn != "" {
+			pat += "?" + qn
+		}
+		rq := c31Req{Base: pat, Variant: []string{"canonical"}, Spec: reqSpec{Method: method, Host: host, Path: path, RawQuery: query, Headers: hdr, Body: body}, DelKeys: delKeys}
+		for h := range hdr {
+			if strings.EqualFold(h, "x-amz-copy-source") {
+				rq.Variant = append(rq.Variant, "copy-source")
+			}
+		}
+		rq.Website = strings.HasSuffix(host, "."+c31Web)
+		return rq
+	}
+	api := c31API
+	ua, ub := st.UploadAlpha, st.UploadBeta
+	return []c31Req{
+		mk("GET", "/", api, "/", "", nil, "", nil),
+		mk("HEAD", "/b", api, "/alpha", "", nil, "", nil),
+		mk("GET", "/b", api, "/alpha", "", nil, "", nil),
+		mk("GET", "/b", api, "/alpha", "list-type=2&max-keys=2", nil, "", nil),
+		mk("GET", "/b", api, "/alpha", "delimiter=%2F", nil, "", nil),
+		mk("GET", "/b", api, "/alpha", "list-type=2&prefix=k&max-keys=1", nil, "", nil),
+		mk("GET", "/b", api, "/alpha", "uploads", nil, "", nil),
+		mk("GET", "/b", api, "/alpha", "uploads&delimiter=%2F", nil, "", nil),
+		mk("GET", "/b", api, "/beta", "versions", nil, "", nil),
+		mk("GET", "/b", api, "/alpha", "versioning", nil, "", nil),
+		mk("GET", "/b", api, "/alpha", "cors", nil, "", nil),
+		mk("GET", "/b", api, "/alpha", "website", nil, "", nil),
+		mk("GET", "/b", api, "/alpha", "lifecycle", nil, "", nil),
+		mk("GET", "/b", api, "/alpha", "notification", nil, "", nil),
+		mk("GET", "/b/k", api, "/alpha/k", "", nil, "", nil),
+		mk("GET", "/b/k", api, "/alpha/k", "", map[string]string{"Range": "bytes=0-9"}, "", nil),
+		mk("HEAD", "/b/k", api, "/alpha/k", "", nil, "", nil),
+		mk("GET", "/b/k", api, "/beta/k", "versionId="+v0, nil, "", nil),
+		mk("HEAD", "/b/k", api, "/beta/k", "versionId="+v1, nil, "", nil),
+		mk("GET", "/b/k", api, "/alpha/tagged", "", nil, "", nil),
+		mk("GET", "/b/k", api, "/alpha/tagged", "tagging", nil, "", nil),
+		mk("GET", "/b/k", api, "/beta/k", "tagging&versionId="+v0, nil, "", nil),
+		mk("GET", "/b/k", api, "/alpha/k", "uploadId="+ua, nil, "", nil),
+		mk("GET", "vhost/k", "alpha."+api, "/k2", "", nil, "", nil),
+		mk("GET", "website/", "alpha."+c31Web, "/", "", nil, "", nil),
+		mk("GET", "website/k", "alpha."+c31Web, "/k", "", nil, "", nil),
+		mk("GET", "website/k", "alpha."+c31Web, "/missing", "", nil, "", nil),
+		mk("GET", "website/k", "alpha."+c31Web, "/docs", "", nil, "", nil),
+		mk("HEAD", "website/k", "alpha."+c31Web, "/k", "", nil, "", nil),
+		mk("HEAD", "website/k", "alpha."+c31Web, "/missing", "", nil, "", nil),
+		mk("PUT", "/b/k", api, "/alpha/newkey", "", map[string]string{"x-amz-tagging": "a=b", "x-amz-meta-x": "y"}, "fresh-object", nil),
+		mk("PUT", "vhost/k", "alpha."+api, "/vkey", "", nil, "fresh-object-2", nil),
+		mk("PUT", "/b/k", api, "/alpha/k", "append", nil, "-appended", nil),
+		mk("PUT", "/b/k", api, "/alpha/k", "tagging", nil, tagBody, nil),
+		mk("PUT", "/b/k", api, "/beta/k", "tagging&versionId="+v0, nil, tagBody, nil),
+		mk("DELETE", "/b/k", api, "/alpha/tagged", "tagging", nil, "", nil),
+		mk("DELETE", "/b/k", api, "/beta/k", "tagging&versionId="+v0, nil, "", nil),
+		mk("PUT", "/b/k", api, "/alpha/copy1", "", map[string]string{"x-amz-copy-source": "/alpha/k2"}, "", nil),
+		mk("PUT", "/b/k", api, "/alpha/copy2", "", map[string]string{"x-amz-copy-source": "/beta/k?versionId=" + v1}, "", nil),
+		mk("PUT", "/b/k", api, "/beta/copy3", "", map[string]string{"x-amz-copy-source": "/alpha/tagged", "x-amz-tagging-directive": "REPLACE", "x-amz-tagging": "n=1", "x-amz-metadata-directive": "REPLACE"}, "", nil),
+		mk("PUT", "/b/k", api, "/alpha/k2", "", map[string]string{"x-amz-copy-source": "/alpha/k2", "x-amz-storage-class": "STANDARD_IA"}, "", nil),
+		mk("POST", "/b/k", api, "/alpha/mp-new", "uploads", map[string]string{"x-amz-tagging": "m=p"}, "", nil),
+		mk("PUT", "/b/k", api, "/alpha/k", "partNumber=3&uploadId="+ua, nil, "third-part-data", nil),
+		mk("PUT", "/b/k", api, "/alpha/k", "partNumber=4&uploadId="+ua, map[string]string{"x-amz-copy-source": "/alpha/k2"}, "", nil),
+		mk("PUT", "/b/k", api, "/alpha/k", "partNumber=5&uploadId="+ua, map[string]string{"x-amz-copy-source": "/beta/k?versionId=" + v0, "x-amz-copy-source-range": "bytes=0-3"}, "", nil),
+		mk("POST", "/b/k", api, "/beta/k", "uploadId="+ub, nil, "<CompleteMultipartUpload><Part><PartNumber>1</PartNumber></Part><Part><PartNumber>2</PartNumber></Part></CompleteMultipartUpload>", nil),
+		mk("DELETE", "/b/k", api, "/alpha/k", "uploadId="+ua, nil, "", nil),
+		mk("POST", "/b", api, "/alpha", "delete", nil, "<Delete><Object><Key>zeta</Key></Object><Object><Key>k2x</Key></Object><Object><Key>tagged</Key></Object><Object><Key>k/sub/x</Key></Object></Delete>", []string{"zeta", "k2x", "tagged", "k/sub/x"}),
+		mk("POST", "/b", api, "/beta", "delete", nil, "<Delete><Object><Key>k2</Key></Object><Object><Key>k</Key><VersionId>"+v0+"</VersionId></Object></Delete>", []string{"k2", "k"}),
+		mk("DELETE", "/b/k", api, "/alpha/index.html", "", nil, "", nil),
+		mk("DELETE", "/b/k", api, "/beta/k", "versionId="+v1, nil, "", nil),
+		mk("DELETE", "/b/k", api, "/beta/k", "", nil, "", nil),
+		mk("PUT", "/b", api, "/alpha", "versioning", nil, "<VersioningConfiguration><Status>Enabled</Status></VersioningConfiguration>", nil),
+		mk("PUT", "/b", api, "/beta", "cors", nil, corsBody, nil),
+		mk("PUT", "/b", api, "/beta", "website", nil, websiteBody, nil),
+		mk("PUT", "/b", api, "/beta", "lifecycle", nil, lifecycleBody, nil),
+		mk("PUT", "/b", api, "/beta", "notification", nil, "<NotificationConfiguration></NotificationConfiguration>", nil),
+		mk("DELETE", "/b", api, "/alpha", "cors", nil, "", nil),
+		mk("DELETE", "/b", api, "/alpha", "website", nil, "", nil),
+		mk("DELETE", "/b", api, "/alpha", "lifecycle", nil, "", nil),
+		mk("PUT", "/b", api, "/brandnew", "", nil, "", nil),
+		mk("DELETE", "/b", api, "/gamma", "", nil, "", nil),
+	}
+}
+
 // ---- the monitor -----------------------------------------------------------
 
 type c31Witness struct {
@@ -671,10 +768,11 @@ func setOf(xs []string) map[string]bool {
 }
 
 type c31Checker struct {
-	r    *vkit.Run
-	mode c31Mode
-	g    *rig
-	st   *c31State
+	r       *vkit.Run
+	mode    c31Mode
+	g       *rig
+	st      *c31State
+	changed string // new baseline after a reported state change
 }
 
 func (ck *c31Checker) fire(sig, what string, w c31Witness, detail string) {
@@ -731,6 +829,17 @@ func (ck *c31Checker) check(rq c31Req, resp *respInfo, calls []sCall, auth []aEv
 			continue
 		}
 		okk, why := authorizedBefore(c, auth, rq.Website)
+		if !okk && rq.Website && rq.Spec.Method == "HEAD" && c.Method == "GetObject" {
+			// website HEAD: index/error documents are opened to learn their type and
+			// length, no bytes are sent (check (2) below guards the bytes); the
+			// request's own Head authorization covers that
+			hc := c
+			hc.Method = "HeadObject"
+			if ok2, _ := authorizedBefore(hc, auth, true); ok2 {
+				r.Count("exempt:website-head-opens-document", 1)
+				okk = true
+			}
+		}
 		if okk {
 			r.Count("effects_covered", 1)
 			continue
@@ -746,8 +855,13 @@ func (ck *c31Checker) check(rq c31Req, resp *respInfo, calls []sCall, auth []aEv
 		r.Count("responses_carrying_object_bytes", 1)
 		allowed := false
 		for _, e := range auth {
-			if e.Kind == "request" && e.Allowed && (e.Op == authorization.OperationGetObject || e.Op == authorization.OperationGetObjectVersion) && ptrEq(e.Bucket, bk[0]) && (rq.Website || ptrEq(e.Key, bk[1])) {
-				allowed = true
+			if e.Kind == "request" && e.Allowed && (e.Op == authorization.OperationGetObject || e.Op == authorization.OperationGetObjectVersion) {
+				// where state may change (authorized copies move content between keys) only the
+				// existence of a Get allow is required here - check (1) ties the allow to the
+				// bucket/key actually read; in frozen modes the marker identifies the object
+				if !ck.mode.Frozen || (ptrEq(e.Bucket, bk[0]) && (rq.Website || ptrEq(e.Key, bk[1]))) {
+					allowed = true
+				}
 			}
 		}
 		if !allowed {
@@ -766,6 +880,7 @@ func (ck *c31Checker) check(rq c31Req, resp *respInfo, calls []sCall, auth []aEv
 				sig = "state-changed-by-read-only-operation:" + pat
 			}
 			ck.fire(sig, fmt.Sprintf("storage snapshot changed although the authorizer program %s cannot have permitted a modification", ck.mode.Name), w, firstDiff(before, after))
+			ck.changed = after
 		} else {
 			r.Count("snapshots_equal", 1)
 		}
@@ -1002,24 +1117,48 @@ func c31RunMode(r *vkit.Run, rng *vkit.Rand, plan c31Plan, onlySeg, onlyIdx int)
 		for i := lo; i < hi; i++ {
 			b := plan.Bases[i]
 			rg := rng.Fork(fmt.Sprintf("%s-%d", m.Name, i))
-			rq := c31Build(rg, b, st)
+			if onlySeg >= 0 && i-lo > onlyIdx {
+				break
+			}
+			var rq c31Req
+			if b.Method == "CANON" {
+				cn := c31Canon(st)
+				rq = cn[b.canonIdx%len(cn)]
+				rq.Bucket = ""
+			} else {
+				rq = c31Build(rg, b, st)
+			}
 			resp, calls, auth, err := g.do(rq.Spec)
 			if err != nil {
 				r.Count("unsendable_requests", 1)
 				continue
 			}
-			if onlySeg >= 0 && i-lo > onlyIdx {
-				break
-			}
 			w := c31Witness{Mode: m.Name, Segment: seg, Index: i - lo, Req: rq, Status: resp.Status, Calls: calls, Auth: auth}
 			r.Eval(fmt.Sprintf("%s|%s|%s|st=%d|calls=%d", m.Name, rq.Base, strings.Join(rq.Variant, "+"), resp.Status, len(calls)))
 			r.Count("requests_mode:"+m.Name, 1)
-			r.Count("requests_method:"+b.Method, 1)
+			r.Count("requests_method:"+rq.Spec.Method, 1)
 			r.Count("requests_shape:"+b.Shape, 1)
+			if resp.Status == 500 {
+				why := "?"
+				for _, e := range auth {
+					if e.Err != "" {
+						why = "authorizer-error"
+					}
+				}
+				for _, c := range calls {
+					if c.Err != "" && why == "?" {
+						why = c.Method + ":" + c.Err
+					}
+				}
+				r.Count("status500:"+m.Name+":"+why, 1)
+			}
 			r.Count(fmt.Sprintf("status:%d", resp.Status), 1)
 			r.Seen("http_patterns", rq.Base)
 			if onlySeg < 0 || i-lo == onlyIdx {
 				ck.check(rq, resp, calls, auth, w, before)
+				if ck.changed != "" {
+					before, ck.changed = ck.changed, ""
+				}
 			}
 			if len(mutatingCalls(calls)) > 0 {
 				r.Count("requests_with_mutating_call", 1)
@@ -1047,7 +1186,7 @@ func c31Plans(r *vkit.Run, rng *vkit.Rand) []c31Plan {
 			}
 			ps := append([]c31Base(nil), pairs...)
 			vkit.Shuffle(rg, ps)
-			bases = append(bases, ps[:900]...)
+			bases = append(bases, ps[:600]...)
 		} else {
 			bases = append(bases, single...)
 			bases = append(bases, pairs...)
@@ -1056,7 +1195,22 @@ func c31Plans(r *vkit.Run, rng *vkit.Rand) []c31Plan {
 			bases = append(bases, pairs...)
 		}
 		vkit.Shuffle(rg, bases)
-		plans = append(plans, c31Plan{Mode: m, Bases: bases})
+		// the curated operations: in order, one block per few segments (each block starts on freshly seeded state)
+		nCanon := len(c31Canon(&c31State{}))
+		var withCanon []c31Base
+		for i, b := range bases {
+			if i%(4*c31SegmentLen) == 0 {
+				for k := 0; k < nCanon; k++ {
+					withCanon = append(withCanon, c31Base{Method: "CANON", Shape: "canonical", canonIdx: k})
+				}
+				// keep segment boundaries aligned
+				for len(withCanon)%c31SegmentLen != 0 {
+					withCanon = append(withCanon, bases[(i+len(withCanon))%len(bases)])
+				}
+			}
+			withCanon = append(withCanon, b)
+		}
+		plans = append(plans, c31Plan{Mode: m, Bases: withCanon})
 	}
 	return plans
 }
@@ -1071,7 +1225,7 @@ func runC31(tier, replay string) {
 				Seed uint64 `json:"seed"`
 				Tier string `json:"tier"`
 			}
-			if jsonUnmarshal(b, &top) == nil {
+			if json.Unmarshal(b, &top) == nil {
 				os.Setenv("VERIF_SEED", fmt.Sprint(top.Seed))
 				tier = top.Tier
 			}
@@ -1107,10 +1261,5 @@ func runC31(tier, replay string) {
 			r.Inconclusive("monitor never observed: " + n)
 		}
 	}
-	var pats []string
-	for _, m := range c31Methods {
-		pats = append(pats, m)
-	}
-	sort.Strings(pats)
 	r.Finish()
 }
